@@ -1328,7 +1328,13 @@ void _mi_abandoned_reclaim_all(mi_heap_t* heap, mi_segments_tld_t* tld) {
   mi_arena_field_cursor_t current;
   _mi_arena_field_cursor_init(heap, tld->subproc, true /* visit all, blocking */, &current);
   while ((segment = _mi_arena_segment_clear_abandoned_next(&current)) != NULL) {
-    mi_segment_reclaim(segment, heap, 0, NULL, tld);
+    if (_mi_heap_memid_is_suitable(heap, segment->memid)) {
+      mi_segment_reclaim(segment, heap, 0, NULL, tld);
+    }
+    else {
+      // leave segments in (exclusive) arenas that this heap may not use abandoned
+      _mi_arena_segment_mark_abandoned(segment);
+    }
   }
   _mi_arena_field_cursor_done(&current);
 }
